@@ -158,6 +158,8 @@ fn make_pool(rng: &mut Rng, lang: &str, size: usize) -> Vec<String> {
                 _ => (*rng.pick(ecom)).to_string(),
             },
         };
+        // some titles are stored decomposed (NFD) or in upper case
+        let t = if rng.chance(1, 10) { corpus::decompose_str(&t) } else if rng.chance(1, 14) { t.to_uppercase() } else { t };
         pool.push(t);
     }
     pool
